@@ -361,3 +361,73 @@ def datetime_range_offsets(sx, fam):
     if out.accepted:
         return sx.And(ok, sx.eq(out.value.hour, H), sx.eq(out.value.minute, MI))
     return sx.And(sx.Not(ok), is_client_validation_fault(out.fault))
+
+
+# ---------------------------------------------------------------- nesting positions
+from spyne.model.complex import XmlAttribute
+
+SMALL = UnsignedInteger8(le=200)
+
+
+class PosInner(ComplexModel):
+    __namespace__ = 'tns'
+    _type_info = [('v', SMALL), ('att', XmlAttribute(SMALL))]
+
+
+class PosOuter(ComplexModel):
+    __namespace__ = 'tns'
+    _type_info = [('top', SMALL), ('inner', PosInner), ('arr', Array(SMALL)), ('many', SMALL.customize(max_occurs=3))]
+
+
+POSITIONS = ['top', 'nested', 'array-member', 'repeated-member', 'xml-attribute']
+
+
+@harness('C05', params=[(pos, fam) for pos in POSITIONS for fam in ('xml', 'json') if not (pos == 'xml-attribute' and fam == 'json')],
+         label=lambda p: '%s %s' % p,
+         functions=['spyne.protocol.xml.XmlDocument.complex_from_element', 'spyne.protocol.xml.XmlDocument.array_from_element',
+                    'spyne.protocol.dictdoc.hier.HierDictDocument._doc_to_object'],
+         bounds={'value': 'text of 1..4 characters over 0-9 - x (XML) / every JSON integer (JSON) for an UnsignedInteger8(le=200) '
+                          'at five nesting positions'})
+def constraint_positions(sx, p):
+    """the same constraint gives the same verdict wherever the value sits: top-level member, nested field, array
+    member, repeated member, XML attribute"""
+    pos, fam = p
+    if fam == 'xml':
+        L = sx.choose('len', [1, 2, 3, 4])
+        text = sx.text('t', L, alphabet='0123456789-x')
+        lit, want = int_literal(sx, text)
+        ok = sx.And(lit, want >= 0, want <= 200)
+        e = lambda name, t=None, kids=(), att=None: mk_element(sx, '{tns}' + name, text=t, children=kids, attrib=att)
+        if pos == 'top':
+            kids = [e('top', text)]
+        elif pos == 'nested':
+            kids = [e('inner', kids=[e('v', text)])]
+        elif pos == 'array-member':
+            kids = [e('arr', kids=[e('unsignedByte', '7'), e('unsignedByte', text)])]
+        elif pos == 'repeated-member':
+            kids = [e('many', '7'), e('many', text)]
+        else:
+            kids = [e('inner', kids=[e('v', '7')], att={'att': text})]
+        out = run_soft(lambda: XML.from_element(CTX, PosOuter, e('o', kids=kids)))
+    else:
+        want = sx.int('v')
+        ok = sx.And(want >= 0, want <= 200)
+        doc = {'top': {'top': want}, 'nested': {'inner': {'v': want}}, 'array-member': {'arr': [7, want]},
+               'repeated-member': {'many': [7, want]}}[pos]
+        out = run_soft(lambda: JSON._doc_to_object(CTX, PosOuter, doc, JSON.validator))
+    sx.observe('accepted', out.accepted)
+    if not out.accepted:
+        return sx.And(sx.Not(ok), is_client_validation_fault(out.fault))
+    o = out.value
+    got = {'top': lambda: o.top, 'nested': lambda: o.inner.v, 'array-member': lambda: o.arr[1],
+           'repeated-member': lambda: o.many[1], 'xml-attribute': lambda: o.inner.att}[pos]()
+    return sx.And(ok, sx.eq(got, want))
+
+
+def attr_out_of_range(t):
+    """known-finding predicate: an integer literal outside 0..200 in the XML attribute position"""
+    from symx.symctx import SymCtx
+    from symx.api import ConcCtx
+    sx = SymCtx() if not isinstance(t, str) else ConcCtx({})
+    lit, v = int_literal(sx, t)
+    return sx.And(lit, sx.Or(v < 0, v > 200))
